@@ -64,6 +64,8 @@ function normResult (r, inst) {
   return JSON.stringify({ status: r.status, content, error, metrics: r.metrics ? { s: r.metrics.status, n: r.metrics.instrumentedPropagation, f: r.metrics.file, d: r.metrics.propagationDebug ? Object.keys(r.metrics.propagationDebug).sort().map((k) => k + '=' + r.metrics.propagationDebug[k]) : null } : null, lit })
 }
 
+function firstDiff (a, b) { let i = 0; while (i < a.length && i < b.length && a[i] === b[i]) i++; return i }
+
 const refs = new Map()
 async function reference (sym) {
   if (!refs.has(sym)) {
